@@ -154,7 +154,12 @@ def _check(ctx: Ctx) -> None:
               construct="wait accumulated at the end of the sequence is never emitted",
               message="a trailing rest is dropped: total duration shrinks", file=fi.file, node=fi.node)
 
-    # --- SIG
+    sig_rules(ctx, fi, loop, m)
+
+
+def sig_rules(ctx: Ctx, fi, loop, m: str) -> None:
+    """SIG: a signature event is dropped iff it repeats the one in force, component by component (shared with C15)."""
+    p = ctx.p
     for T, attrs in (("TIME_SIGNATURE", ("numerator", "denominator")), ("KEY_SIGNATURE", ("key",))):
         found = False
         for n in ast.walk(loop):
@@ -198,8 +203,32 @@ def _check(ctx: Ctx) -> None:
                               f"{FN}: `{v}` starts as None", function=FN, construct="in-force signature variable not initialised to None",
                               message="the first signature of a sequence could be dropped as a repetition", file=fi.file,
                               node=inits[0] if inits else fi.node)
-        ctx.check(found, "SIG", f"{FN}: {T} repetition filter present", function=FN, construct=f"no {T} repetition filter found",
-                  message="", file=fi.file, node=loop)
+        if found:
+            ctx.ok("SIG", f"{FN}: {T} repetition filter present")
+            continue
+        # accept the tuple spelling `(m.a, m.b) != in_force`; anything that compares a *derived* quantity is wrong
+        tup = [c for c in ast.walk(loop) if isinstance(c, ast.Compare) and len(c.ops) == 1 and isinstance(c.ops[0], ast.NotEq) and isinstance(c.left, ast.Tuple)
+               and [getattr(e, "attr", None) for e in c.left.elts] == list(attrs) and all(isinstance(e.value, ast.Name) and e.value.id == m for e in c.left.elts)]
+        if tup:
+            ctx.undetermined("SIG", f"{FN}: {T} repetition filter", "tuple comparison recognised, its bookkeeping is not judged")
+            continue
+        derived_vars = {s_.targets[0].id: s_ for s_ in ast.walk(loop) if isinstance(s_, ast.Assign) and isinstance(s_.targets[0], ast.Name)
+                        and isinstance(s_.value, ast.BinOp)
+                        and any(isinstance(a, ast.Attribute) and a.attr in attrs and isinstance(a.value, ast.Name) and a.value.id == m for a in ast.walk(s_.value))}
+        derived = [c for c in ast.walk(loop) if isinstance(c, ast.Compare)
+                   and (any(isinstance(b, ast.BinOp) and any(isinstance(a, ast.Attribute) and a.attr in attrs and isinstance(a.value, ast.Name) and a.value.id == m
+                                                             for a in ast.walk(b)) for b in ast.walk(c))
+                        or any(isinstance(x, ast.Name) and x.id in derived_vars for x in ast.walk(c)))]
+        if derived:
+            ctx.violation("SIG", f"{FN}: {T} repetition filter", function=FN,
+                          construct=f"{T} repetition filter compares a derived quantity instead of the signature's components",
+                          message=f"`{short(derived[0], 80)}`: two different signatures with the same derived value (3/4 and 6/8) count as a repetition and the "
+                                  f"second one is dropped", file=fi.file, node=derived[0])
+        else:
+            ctx.check(False, "SIG", f"{FN}: {T} repetition filter present", function=FN, construct=f"no {T} repetition filter found",
+                      message="", file=fi.file, node=loop)
+
+
 
 
 class _LenCase(TypeCase):
